@@ -1,10 +1,12 @@
 //go:build verif
 
-package config
+package config_test
 
 import (
 	"encoding/json"
 	"fmt"
+	"github.com/mdlayher/corerad/internal/config"
+	"github.com/mdlayher/corerad/verifrt/ref"
 	"os"
 	"path/filepath"
 	"reflect"
@@ -22,35 +24,35 @@ import (
 
 var c02Epoch = time.Date(2000, 1, 1, 0, 0, 0, 0, time.UTC)
 
-func c02Base() vDoc {
-	return vDoc{
-		Ifaces: []vIface{{
-			Scalars: vTable{"name": "eth0", "advertise": true},
-			Prefix:  []vTable{{"prefix": "2001:db8::/64"}},
-			Route:   []vTable{{"prefix": "2001:db8:ffff::/48"}},
-			RDNSS:   []vTable{{"servers": []string{"2001:db8::1"}}},
-			DNSSL:   []vTable{{"domain_names": []string{"example.com"}}},
-			PREF64:  []vTable{{}},
+func c02Base() ref.Doc {
+	return ref.Doc{
+		Ifaces: []ref.Iface{{
+			Scalars: ref.Table{"name": "eth0", "advertise": true},
+			Prefix:  []ref.Table{{"prefix": "2001:db8::/64"}},
+			Route:   []ref.Table{{"prefix": "2001:db8:ffff::/48"}},
+			RDNSS:   []ref.Table{{"servers": []string{"2001:db8::1"}}},
+			DNSSL:   []ref.Table{{"domain_names": []string{"example.com"}}},
+			PREF64:  []ref.Table{{}},
 		}},
-		Debug: vTable{"address": "localhost:9430"},
+		Debug: ref.Table{"address": "localhost:9430"},
 	}
 }
 
 type c02Dev struct {
 	Slot, Name string
-	f          func(d *vDoc)
+	f          func(d *ref.Doc)
 }
 
 func c02Devs() []c02Dev {
 	var ds []c02Dev
-	add := func(slot, name string, f func(d *vDoc)) { ds = append(ds, c02Dev{slot, name, f}) }
+	add := func(slot, name string, f func(d *ref.Doc)) { ds = append(ds, c02Dev{slot, name, f}) }
 	setI := func(slot, key string, vals ...any) {
 		for _, v := range vals {
 			v := v
-			add(slot, fmt.Sprintf("%s=%s", key, tomlValue(v)), func(d *vDoc) { d.Ifaces[0].Scalars[key] = v })
+			add(slot, fmt.Sprintf("%s=%s", key, ref.TOMLValue(v)), func(d *ref.Doc) { d.Ifaces[0].Scalars[key] = v })
 		}
 	}
-	tables := func(d *vDoc, kind string) *[]vTable {
+	tables := func(d *ref.Doc, kind string) *[]ref.Table {
 		i := &d.Ifaces[0]
 		switch kind {
 		case "prefix":
@@ -68,46 +70,48 @@ func c02Devs() []c02Dev {
 	setT := func(slot, kind, key string, vals ...any) {
 		for _, v := range vals {
 			v := v
-			add(slot, fmt.Sprintf("%s.%s=%s", kind, key, tomlValue(v)), func(d *vDoc) { (*tables(d, kind))[0][key] = v })
+			add(slot, fmt.Sprintf("%s.%s=%s", kind, key, ref.TOMLValue(v)), func(d *ref.Doc) { (*tables(d, kind))[0][key] = v })
 		}
 	}
-	addT := func(slot, name, kind string, t vTable) {
-		add(slot, name, func(d *vDoc) { ts := tables(d, kind); *ts = append(*ts, t.clone()) })
+	addT := func(slot, name, kind string, t ref.Table) {
+		add(slot, name, func(d *ref.Doc) { ts := tables(d, kind); *ts = append(*ts, t.Clone()) })
 	}
 	noT := func(slot, kind string) {
-		add(slot, "no-"+kind, func(d *vDoc) { *tables(d, kind) = nil })
+		add(slot, "no-"+kind, func(d *ref.Doc) { *tables(d, kind) = nil })
 	}
 
 	// Interface identity.
-	add("ident", "names-1", func(d *vDoc) { s := d.Ifaces[0].Scalars; delete(s, "name"); s["names"] = []string{"eth0"} })
-	add("ident", "names-2", func(d *vDoc) { s := d.Ifaces[0].Scalars; delete(s, "name"); s["names"] = []string{"eth0", "eth1"} })
-	add("ident", "name+names", func(d *vDoc) { d.Ifaces[0].Scalars["names"] = []string{"eth1"} })
-	add("ident", "name+names-same", func(d *vDoc) { d.Ifaces[0].Scalars["names"] = []string{"eth0"} })
-	add("ident", "no-name", func(d *vDoc) { delete(d.Ifaces[0].Scalars, "name") })
-	add("ident", "names-dup", func(d *vDoc) { s := d.Ifaces[0].Scalars; delete(s, "name"); s["names"] = []string{"eth0", "eth0"} })
-	add("ident", "name-empty", func(d *vDoc) { d.Ifaces[0].Scalars["name"] = "" })
-	add("ident", "names-empty", func(d *vDoc) { s := d.Ifaces[0].Scalars; delete(s, "name"); s["names"] = []string{} })
-	add("ident", "name+names-empty", func(d *vDoc) { d.Ifaces[0].Scalars["names"] = []string{} })
-	add("ident", "names-emptystring", func(d *vDoc) { s := d.Ifaces[0].Scalars; delete(s, "name"); s["names"] = []string{""} })
+	add("ident", "names-1", func(d *ref.Doc) { s := d.Ifaces[0].Scalars; delete(s, "name"); s["names"] = []string{"eth0"} })
+	add("ident", "names-2", func(d *ref.Doc) { s := d.Ifaces[0].Scalars; delete(s, "name"); s["names"] = []string{"eth0", "eth1"} })
+	add("ident", "name+names", func(d *ref.Doc) { d.Ifaces[0].Scalars["names"] = []string{"eth1"} })
+	add("ident", "name+names-same", func(d *ref.Doc) { d.Ifaces[0].Scalars["names"] = []string{"eth0"} })
+	add("ident", "no-name", func(d *ref.Doc) { delete(d.Ifaces[0].Scalars, "name") })
+	add("ident", "names-dup", func(d *ref.Doc) { s := d.Ifaces[0].Scalars; delete(s, "name"); s["names"] = []string{"eth0", "eth0"} })
+	add("ident", "name-empty", func(d *ref.Doc) { d.Ifaces[0].Scalars["name"] = "" })
+	add("ident", "names-empty", func(d *ref.Doc) { s := d.Ifaces[0].Scalars; delete(s, "name"); s["names"] = []string{} })
+	add("ident", "name+names-empty", func(d *ref.Doc) { d.Ifaces[0].Scalars["names"] = []string{} })
+	add("ident", "names-emptystring", func(d *ref.Doc) { s := d.Ifaces[0].Scalars; delete(s, "name"); s["names"] = []string{""} })
 
 	// A second interface table.
-	second := func(name string, s vTable, pfx []vTable) {
-		add("second", name, func(d *vDoc) { d.Ifaces = append(d.Ifaces, vIface{Scalars: s.clone(), Prefix: cloneTables(pfx)}) })
+	second := func(name string, s ref.Table, pfx []ref.Table) {
+		add("second", name, func(d *ref.Doc) {
+			d.Ifaces = append(d.Ifaces, ref.Iface{Scalars: s.Clone(), Prefix: ref.CloneTables(pfx)})
+		})
 	}
-	second("second-monitor-eth1", vTable{"name": "eth1", "monitor": true}, nil)
-	second("second-dup-eth0", vTable{"name": "eth0", "monitor": true}, nil)
-	second("second-names-overlap", vTable{"names": []string{"eth1", "eth0"}, "advertise": true}, nil)
-	second("second-adv-eth1", vTable{"name": "eth1", "advertise": true, "max_interval": "4s", "min_interval": "3s"}, []vTable{{}})
-	second("second-neither-eth2", vTable{"name": "eth2"}, nil)
-	second("second-nameless", vTable{"advertise": true}, nil)
-	second("second-monitor-verbose-names", vTable{"names": []string{"eth1", "eth2"}, "monitor": true, "verbose": true}, nil)
-	add("second", "no-interfaces", func(d *vDoc) { d.Ifaces = nil })
+	second("second-monitor-eth1", ref.Table{"name": "eth1", "monitor": true}, nil)
+	second("second-dup-eth0", ref.Table{"name": "eth0", "monitor": true}, nil)
+	second("second-names-overlap", ref.Table{"names": []string{"eth1", "eth0"}, "advertise": true}, nil)
+	second("second-adv-eth1", ref.Table{"name": "eth1", "advertise": true, "max_interval": "4s", "min_interval": "3s"}, []ref.Table{{}})
+	second("second-neither-eth2", ref.Table{"name": "eth2"}, nil)
+	second("second-nameless", ref.Table{"advertise": true}, nil)
+	second("second-monitor-verbose-names", ref.Table{"names": []string{"eth1", "eth2"}, "monitor": true, "verbose": true}, nil)
+	add("second", "no-interfaces", func(d *ref.Doc) { d.Ifaces = nil })
 
 	// Mode.
-	add("mode", "monitor+advertise", func(d *vDoc) { d.Ifaces[0].Scalars["monitor"] = true })
-	add("mode", "monitor-only", func(d *vDoc) { s := d.Ifaces[0].Scalars; s["monitor"] = true; delete(s, "advertise") })
-	add("mode", "neither", func(d *vDoc) { delete(d.Ifaces[0].Scalars, "advertise") })
-	add("mode", "advertise-false", func(d *vDoc) { d.Ifaces[0].Scalars["advertise"] = false })
+	add("mode", "monitor+advertise", func(d *ref.Doc) { d.Ifaces[0].Scalars["monitor"] = true })
+	add("mode", "monitor-only", func(d *ref.Doc) { s := d.Ifaces[0].Scalars; s["monitor"] = true; delete(s, "advertise") })
+	add("mode", "neither", func(d *ref.Doc) { delete(d.Ifaces[0].Scalars, "advertise") })
+	add("mode", "advertise-false", func(d *ref.Doc) { d.Ifaces[0].Scalars["advertise"] = false })
 
 	setI("max", "max_interval", c02Max...)
 	setI("min", "min_interval", c02Min...)
@@ -138,12 +142,12 @@ func c02Devs() []c02Dev {
 	setT("p-auto", "prefix", "autonomous", false, true)
 	setT("p-unknown", "prefix", "bogus", "x")
 	noT("p-struct", "prefix")
-	addT("p-struct", "prefix2-disjoint", "prefix", vTable{"prefix": "2001:db8:1::/64"})
-	addT("p-struct", "prefix2-nested", "prefix", vTable{"prefix": "2001:db8::/65"})
-	addT("p-struct", "prefix2-covering", "prefix", vTable{"prefix": "2001:db8::/32"})
-	addT("p-struct", "prefix2-identical", "prefix", vTable{"prefix": "2001:db8::/64"})
-	addT("p-struct", "prefix2-wildcard", "prefix", vTable{})
-	addT("p-struct", "prefix2-wildcard-explicit", "prefix", vTable{"prefix": "::/64"})
+	addT("p-struct", "prefix2-disjoint", "prefix", ref.Table{"prefix": "2001:db8:1::/64"})
+	addT("p-struct", "prefix2-nested", "prefix", ref.Table{"prefix": "2001:db8::/65"})
+	addT("p-struct", "prefix2-covering", "prefix", ref.Table{"prefix": "2001:db8::/32"})
+	addT("p-struct", "prefix2-identical", "prefix", ref.Table{"prefix": "2001:db8::/64"})
+	addT("p-struct", "prefix2-wildcard", "prefix", ref.Table{})
+	addT("p-struct", "prefix2-wildcard-explicit", "prefix", ref.Table{"prefix": "::/64"})
 
 	// Route stanza.
 	setT("r-prefix", "route", "prefix", "", "::/0", "::/64", "::/1", "2001:db8:ffff::/64", "2001:db8:ffff::1/128", "2001:db8:ffff::1/48",
@@ -153,49 +157,49 @@ func c02Devs() []c02Dev {
 	setT("r-dep", "route", "deprecated", true)
 	setT("r-unknown", "route", "bogus", "x")
 	noT("r-struct", "route")
-	addT("r-struct", "route2-disjoint", "route", vTable{"prefix": "2001:db8:eeee::/48"})
-	addT("r-struct", "route2-nested", "route", vTable{"prefix": "2001:db8:ffff:1::/64"})
-	addT("r-struct", "route2-covering", "route", vTable{"prefix": "2001:db8::/32"})
-	addT("r-struct", "route2-identical", "route", vTable{"prefix": "2001:db8:ffff::/48"})
-	addT("r-struct", "route2-wildcard", "route", vTable{})
-	addT("r-struct", "route2-wildcard-explicit", "route", vTable{"prefix": "::/0", "preference": "high"})
+	addT("r-struct", "route2-disjoint", "route", ref.Table{"prefix": "2001:db8:eeee::/48"})
+	addT("r-struct", "route2-nested", "route", ref.Table{"prefix": "2001:db8:ffff:1::/64"})
+	addT("r-struct", "route2-covering", "route", ref.Table{"prefix": "2001:db8::/32"})
+	addT("r-struct", "route2-identical", "route", ref.Table{"prefix": "2001:db8:ffff::/48"})
+	addT("r-struct", "route2-wildcard", "route", ref.Table{})
+	addT("r-struct", "route2-wildcard-explicit", "route", ref.Table{"prefix": "::/0", "preference": "high"})
 
 	// RDNSS.
 	setT("d-servers", "rdnss", "servers", []string{}, []string{"::"}, []string{"::", "2001:db8::1"}, []string{"2001:db8::2", "::", "2001:db8::1"},
 		[]string{"2001:db8::2", "2001:db8::1"}, []string{"::", "::"}, []string{"2001:db8::1", "2001:db8::1"}, []string{"2001:db8::1", "2001:db8:0::1"},
 		[]string{"10.0.0.1"}, []string{"::ffff:10.0.0.1"}, []string{"garbage"}, []string{"fe80::1%eth0"}, []string{""})
-	add("d-servers", "rdnss.no-servers-key", func(d *vDoc) { delete(d.Ifaces[0].RDNSS[0], "servers") })
+	add("d-servers", "rdnss.no-servers-key", func(d *ref.Doc) { delete(d.Ifaces[0].RDNSS[0], "servers") })
 	setT("d-life", "rdnss", "lifetime", c02Life...)
 	setT("d-unknown", "rdnss", "bogus", "x")
 	noT("d-struct", "rdnss")
-	addT("d-struct", "rdnss2", "rdnss", vTable{"servers": []string{"2001:db8::1"}, "lifetime": "1s"})
+	addT("d-struct", "rdnss2", "rdnss", ref.Table{"servers": []string{"2001:db8::1"}, "lifetime": "1s"})
 
 	// DNSSL.
 	setT("l-names", "dnssl", "domain_names", []string{}, []string{"a.example", "b.example"}, []string{"b.example", "a.example"},
 		[]string{"example.com", "example.com"}, []string{""})
-	add("l-names", "dnssl.no-names-key", func(d *vDoc) { delete(d.Ifaces[0].DNSSL[0], "domain_names") })
+	add("l-names", "dnssl.no-names-key", func(d *ref.Doc) { delete(d.Ifaces[0].DNSSL[0], "domain_names") })
 	setT("l-life", "dnssl", "lifetime", c02Life...)
 	setT("l-unknown", "dnssl", "bogus", "x")
 	noT("l-struct", "dnssl")
-	addT("l-struct", "dnssl2", "dnssl", vTable{"domain_names": []string{"example.com"}})
+	addT("l-struct", "dnssl2", "dnssl", ref.Table{"domain_names": []string{"example.com"}})
 
 	// PREF64.
 	setT("f-prefix", "pref64", "prefix", "", "64:ff9b::/96", "2001:db8::/64", "2001:db8::/56", "2001:db8::/48", "2001:db8::/40", "2001:db8::/32",
 		"2001:db8::/33", "2001:db8::/95", "2001:db8::/97", "::/0", "2001:db8::/128", "10.0.0.0/8", "10.0.0.0/32", "::ffff:10.0.0.0/96", "64:ff9b::1/96", "garbage", "/33")
 	setT("f-unknown", "pref64", "bogus", "x")
 	noT("f-struct", "pref64")
-	addT("f-struct", "pref64-2", "pref64", vTable{"prefix": "2001:db8:64::/96"})
+	addT("f-struct", "pref64-2", "pref64", ref.Table{"prefix": "2001:db8:64::/96"})
 
 	// Debug and top level.
 	for _, a := range []string{"", ":9430", "[::1]:9430", "127.0.0.1:9430", "localhost:0", "localhost:65535", "localhost", "localhost:65536", "localhost:-1", "a:b:c", "[::1]", "localhost:http2x"} {
 		a := a
-		add("g-addr", "debug.address="+a, func(d *vDoc) { d.Debug["address"] = a })
+		add("g-addr", "debug.address="+a, func(d *ref.Doc) { d.Debug["address"] = a })
 	}
-	add("g-prom", "debug.prometheus", func(d *vDoc) { d.Debug["prometheus"] = true })
-	add("g-pprof", "debug.pprof", func(d *vDoc) { d.Debug["pprof"] = true })
-	add("g-unknown", "debug.bogus", func(d *vDoc) { d.Debug["bogus"] = true })
-	add("g-addr", "no-debug", func(d *vDoc) { d.Debug = nil })
-	add("top", "top.bogus", func(d *vDoc) { d.Top = vTable{"bogus": "x"} })
+	add("g-prom", "debug.prometheus", func(d *ref.Doc) { d.Debug["prometheus"] = true })
+	add("g-pprof", "debug.pprof", func(d *ref.Doc) { d.Debug["pprof"] = true })
+	add("g-unknown", "debug.bogus", func(d *ref.Doc) { d.Debug["bogus"] = true })
+	add("g-addr", "no-debug", func(d *ref.Doc) { d.Debug = nil })
+	add("top", "top.bogus", func(d *ref.Doc) { d.Top = ref.Table{"bogus": "x"} })
 	return ds
 }
 
@@ -211,7 +215,7 @@ var (
 
 type c02Case struct {
 	Devs []string `json:"deviations"`
-	Doc  vDoc     `json:"document"`
+	Doc  ref.Doc  `json:"document"`
 }
 
 var (
@@ -229,25 +233,25 @@ func c02Norm(s string) string {
 }
 
 // c02Eval parses one document and compares with the reference model.
-func c02Eval(doc vDoc) (verdict vVerdict, out [][2]string) {
+func c02Eval(doc ref.Doc) (verdict ref.Verdict, out [][2]string) {
 	text := doc.TOML()
-	want, wantCfg, why := refParse(doc, c02Epoch)
+	want, wantCfg, why := ref.Parse(doc, c02Epoch)
 	var (
-		got *Config
+		got *config.Config
 		err error
 		pv  any
 	)
 	func() {
 		defer func() { pv = recover() }()
-		got, err = Parse(strings.NewReader(text), c02Epoch)
+		got, err = config.Parse(strings.NewReader(text), c02Epoch)
 	}()
 	if pv != nil {
 		return want, [][2]string{{"C02:panic", fmt.Sprintf("Parse panicked: %v\n%s", pv, text)}}
 	}
 	switch want {
-	case vDontCare:
+	case ref.DontCare:
 		return want, nil
-	case vReject:
+	case ref.Reject:
 		if err == nil {
 			out = append(out, [2]string{"C02:accepts:" + c02Norm(why), fmt.Sprintf("accepted although %s:\n%s", why, text)})
 		}
@@ -263,7 +267,7 @@ func c02Eval(doc vDoc) (verdict vVerdict, out [][2]string) {
 }
 
 // c02Diff names the fields in which two configurations differ.
-func c02Diff(want, got *Config) [][2]string {
+func c02Diff(want, got *config.Config) [][2]string {
 	var out [][2]string
 	if reflect.DeepEqual(want, got) {
 		return nil
@@ -332,17 +336,15 @@ func TestVerifC02(t *testing.T) {
 		return
 	}
 
-	idx := 0
-	verdicts := map[vVerdict]int64{}
-	one := func(names []string, doc vDoc) {
-		idx++
-		if !r.Mine(idx) {
+	verdicts := map[ref.Verdict]int64{}
+	one := func(names []string, doc ref.Doc) {
+		if !r.MineKey(doc.TOML()) {
 			return
 		}
 		v, vs := c02Eval(doc)
 		verdicts[v]++
 		c := c02Case{Devs: names, Doc: doc}
-		r.Case(doc.TOML(), v != vDontCare && len(names) > 0)
+		r.Case(doc.TOML(), v != ref.DontCare && len(names) > 0)
 		r.Sample(map[string]any{"deviations": names, "reference_verdict": v.String(), "toml": doc.TOML()})
 		for _, x := range vs {
 			r.Violation(x[0], x[1], c)
@@ -383,7 +385,7 @@ func TestVerifC02(t *testing.T) {
 	r.Count("single_deviations", int64(len(devs)))
 
 	// Interaction groups: full products.
-	setI := func(d *vDoc, k string, v any) { d.Ifaces[0].Scalars[k] = v }
+	setI := func(d *ref.Doc, k string, v any) { d.Ifaces[0].Scalars[k] = v }
 	for _, mx := range c02Max {
 		for _, mn := range c02Min {
 			d := c02Base()
@@ -446,8 +448,8 @@ func TestVerifC02(t *testing.T) {
 }
 
 // fixDoc repairs types lost in a JSON round trip of a replay ([]any -> []string, float64 -> int).
-func fixDoc(d vDoc) vDoc {
-	fix := func(t vTable) {
+func fixDoc(d ref.Doc) ref.Doc {
+	fix := func(t ref.Table) {
 		for k, v := range t {
 			switch x := v.(type) {
 			case []any:
@@ -465,7 +467,7 @@ func fixDoc(d vDoc) vDoc {
 	fix(d.Debug)
 	for i := range d.Ifaces {
 		fix(d.Ifaces[i].Scalars)
-		for _, ts := range [][]vTable{d.Ifaces[i].Prefix, d.Ifaces[i].Route, d.Ifaces[i].RDNSS, d.Ifaces[i].DNSSL, d.Ifaces[i].PREF64} {
+		for _, ts := range [][]ref.Table{d.Ifaces[i].Prefix, d.Ifaces[i].Route, d.Ifaces[i].RDNSS, d.Ifaces[i].DNSSL, d.Ifaces[i].PREF64} {
 			for _, t := range ts {
 				fix(t)
 			}
@@ -480,7 +482,7 @@ func c02ParseTotal(r *ev.Run, text string, what string) {
 	var pv any
 	func() {
 		defer func() { pv = recover() }()
-		_, _ = Parse(strings.NewReader(text), c02Epoch)
+		_, _ = config.Parse(strings.NewReader(text), c02Epoch)
 	}()
 	if pv != nil {
 		r.Violation("C02:panic:"+c02Norm(fmt.Sprint(pv)), fmt.Sprintf("Parse panicked (%v) on %s: %q", pv, what, text), map[string]any{"text": text})
@@ -515,8 +517,7 @@ func TestVerifC02Total(t *testing.T) {
 	var rec func(n int)
 	rec = func(n int) {
 		idx++
-		if r.Mine(idx) {
-			s := string(buf)
+		if s := string(buf); r.MineKey(s) {
 			r.Case(s, true)
 			if idx%9973 == 1 {
 				r.Sample(s)
@@ -551,35 +552,37 @@ func TestVerifC02Total(t *testing.T) {
 	for _, base := range []struct {
 		name string
 		text string
-	}{{"reference.toml", string(ref)}, {"Minimal", fmt.Sprintf(Minimal, "CoreRAD")}, {"base", c02Base().TOML()}} {
+	}{{"reference.toml", string(ref)}, {"Minimal", fmt.Sprintf(config.Minimal, "CoreRAD")}, {"base", c02Base().TOML()}} {
 		b := []byte(base.text)
 		for pos := 0; pos <= len(b); pos++ {
 			if pos%stride != 0 && base.name == "reference.toml" {
 				continue
 			}
 			idx++
-			if !r.Mine(idx) {
-				continue
+			if s := string(b[:pos]); r.MineKey(s) {
+				r.Case(s, true)
+				c02ParseTotal(r, s, "prefix of "+base.name)
 			}
-			s := string(b[:pos])
-			r.Case(s, true)
-			c02ParseTotal(r, s, "prefix of "+base.name)
 			if pos == len(b) {
 				break
 			}
-			del := string(b[:pos]) + string(b[pos+1:])
-			r.Case(del, true)
-			c02ParseTotal(r, del, "deletion in "+base.name)
+			if del := string(b[:pos]) + string(b[pos+1:]); r.MineKey(del) {
+				r.Case(del, true)
+				c02ParseTotal(r, del, "deletion in "+base.name)
+			}
 			for _, c := range subst {
 				if c == b[pos] {
 					continue
 				}
-				m := append(append(append([]byte(nil), b[:pos]...), c), b[pos+1:]...)
-				r.Case(string(m), true)
+				m := string(append(append(append([]byte(nil), b[:pos]...), c), b[pos+1:]...))
+				if !r.MineKey(m) {
+					continue
+				}
+				r.Case(m, true)
 				if idx%4099 == 0 {
 					r.Sample(map[string]any{"base": base.name, "pos": pos, "byte": c})
 				}
-				c02ParseTotal(r, string(m), "substitution in "+base.name)
+				c02ParseTotal(r, m, "substitution in "+base.name)
 			}
 		}
 	}
